@@ -47,6 +47,8 @@ enum Fate {
     Fail(usize),
     Kill(usize),
     Cancel(usize),
+    /// the writer succeeds; its rename is made to fail from outside (strace error injection)
+    RFail,
 }
 
 impl Fate {
@@ -57,6 +59,7 @@ impl Fate {
             "fail" => Fate::Fail(k),
             "kill" => Fate::Kill(k),
             "cancel" => Fate::Cancel(k),
+            "rfail" => Fate::RFail,
             _ => Fate::Ok,
         }
     }
@@ -66,6 +69,7 @@ impl Fate {
             Fate::Fail(k) => format!("fail@{k}"),
             Fate::Kill(k) => format!("kill@{k}"),
             Fate::Cancel(k) => format!("cancel@{k}"),
+            Fate::RFail => "rfail".into(),
         }
     }
 }
@@ -901,7 +905,12 @@ fn run_round_procs(
     if let Some((point, usec)) = &lead {
         // creator 0 runs under strace with a delay at the chosen system call; it starts alone and the others
         // start once it is inside its write callback
-        let inj = strace_inject(&sh.cfg.dest, point, &format!("delay_enter={usec}"));
+        let inj = if point == "renamefail" {
+            // the rename of creator 0 fails (the system call is not executed): RenameError after a good write
+            strace_inject(&sh.cfg.dest, "rename", "error=EIO")
+        } else {
+            strace_inject(&sh.cfg.dest, point, &format!("delay_enter={usec}"))
+        };
         kids[0] = Some(spawn_kid(&sh, 0, 0, "arrive", inj));
         first = 1;
         let t = Instant::now();
@@ -1062,6 +1071,10 @@ fn run_round(ws: &[&str], stats: &mut Stats) -> Vec<String> {
     let fates: Vec<Fate> = list(kv(ws, "fates").unwrap_or("-")).into_iter().map(Fate::parse).collect();
     let sizes: Vec<usize> = list(kv(ws, "sizes").unwrap_or("-")).into_iter().filter_map(|s| s.parse().ok()).collect();
     let seed = kv_num(ws, "seed", 1) as u64;
+    let wants_rfail = kv(ws, "lead").map(|l| l.starts_with("renamefail:")).unwrap_or(false);
+    if fates.iter().enumerate().any(|(i, f)| (*f == Fate::RFail) != (wants_rfail && i == 0)) || (wants_rfail && (fates.is_empty() || mode != "procs")) {
+        return vec!["bad-op".into()];
+    }
     let dir = work_dir();
     let dest = dir.join("cache.bin");
     let first_ok = fates.iter().take_while(|f| **f != Fate::Ok).count();
@@ -1098,12 +1111,13 @@ fn run_round(ws: &[&str], stats: &mut Stats) -> Vec<String> {
     }
     let count = |p: &dyn Fn(&Outcome) -> bool| outcomes.iter().filter(|o| p(o)).count();
     out.push(format!(
-        "outcomes created={} existing={} err={} killed={} cancelled={}",
+        "outcomes created={} existing={} err={} killed={} cancelled={} err_rename={}",
         count(&|o| *o == Outcome::Created),
         count(&|o| *o == Outcome::Existing),
         count(&|o| matches!(o, Outcome::Err(_))),
         count(&|o| *o == Outcome::Killed),
-        count(&|o| *o == Outcome::Cancelled)
+        count(&|o| *o == Outcome::Cancelled),
+        count(&|o| *o == Outcome::Err("rename".into()))
     ));
     out.push(format!("writes_ok={}", ctl.writes_ok));
     out.push(format!("max_active={}", ctl.max_active()));
@@ -1137,7 +1151,9 @@ fn run_round(ws: &[&str], stats: &mut Stats) -> Vec<String> {
     if let Some(p) = kv(ws, "pre").filter(|p| *p != "-") {
         stats.bump(&format!("pre_kill_{}", p.split('x').next().unwrap().trim_end_matches(char::is_numeric)));
     }
-    if kv(ws, "lead").filter(|p| *p != "-").is_some() {
+    if wants_rfail {
+        stats.bump("rounds_with_rename_failure");
+    } else if kv(ws, "lead").filter(|p| *p != "-").is_some() {
         stats.bump("rounds_with_delay_injection");
     }
     let _ = std::fs::remove_dir_all(&dir);
@@ -2090,6 +2106,9 @@ impl Prop for C16 {
         // waiters cancelled while blocked in flock (threads only)
         push("threads-cancel-waiters".into(), round_line("threads", 3, 1, 2, &[], &[3], "-", 2, "-", next_seed()));
         push("threads-fail-cancel-waiters".into(), round_line("threads", 3, 0, 1, &[Fate::Fail(2)], &[3, 2], "-", 2, "-", next_seed()));
+        // the rename of the first writer fails after a good write: a second writer must then succeed (two Ok callbacks)
+        push("procs-rename-fails".into(), round_line("procs", 3, 0, 0, &[Fate::RFail], &[2, 3], "-", 2, "renamefail:0", next_seed()));
+        push("procs-rename-fails-late".into(), round_line("procs", 4, 1, 0, &[Fate::RFail, Fate::Fail(1)], &[3, 2, 2], "-", 2, "renamefail:0", next_seed()));
         // waiters SIGKILLed while blocked in flock; signals (EINTR) to blocked flock threads (processes only)
         push("procs-kill-waiters".into(), round_line("procs", 3, 1, 2, &[], &[3, 2], "-", 2, "-", next_seed()));
         push("procs-fail-kill-waiters".into(), round_line("procs", 3, 0, 1, &[Fate::Fail(1)], &[2, 3], "-", 2, "-", next_seed()));
@@ -2175,6 +2194,11 @@ impl Prop for C16 {
             }
         } else if procs && tier == Tier::Thorough && rng.chance(1, 10) && fates.first().map(|f| *f == Fate::Ok).unwrap_or(true) {
             lead = format!("{}:{}", rng.pick(&["openpart", "closepart", "rename", "closelock", "unlinklock"]), 20_000 * rng.range(1, 5));
+        }
+        let mut fates = fates;
+        if procs && pre == "-" && lead == "-" && n > nf + 1 + late && rng.chance(1, 12) {
+            fates.insert(0, Fate::RFail);
+            lead = "renamefail:0".to_string();
         }
         let presize = rng.range(2, 4) as usize;
         if sig > 0 && pre == "-" && lead == "-" {
